@@ -66,7 +66,13 @@ func NewCosine() Space {
 }
 
 func (this *Cosine) Distance(a, b math.Vector) float32 {
-	return math.Abs(this.impl.CosineDistance(a, b))
+	distance := math.Abs(this.impl.CosineDistance(a, b))
+	if distance != distance {
+		// The angle to a vector without direction (zero length, or a norm that overflows) is
+		// undefined. Treat it as orthogonal: NaN has no place in any ordering of scores.
+		return 1
+	}
+	return distance
 }
 
 func (this *Cosine) String() string {
